@@ -30,14 +30,32 @@ Section Bounded.
   Lemma bounded_struct t cs : bounded (VStruct t cs) = bounded_all cs.
   Proof. reflexivity. Qed.
 
-  Definition Inv (r : region) : Prop := okpos (fst r) /\ snd r <= hi.
+  Definition Inv (r : region) : Prop := okpos (fst r) /\ okpos (snd r).
   Definition Good (r : region) : Prop := fst r = nopos \/ snd r <= fst r \/ (lo <= fst r /\ snd r <= hi).
-
-  Lemma inv_good r : Inv r -> Good r.
-  Proof. intros [[H|H] E]; [left; exact H|right; right; lia]. Qed.
 
   Lemma okpos_le x : okpos x -> x <= hi.
   Proof. intros [->|H]; lia. Qed.
+
+  Lemma inv_good r : Inv r -> Good r.
+  Proof. intros [[H|H] E]; [left; exact H|right; right; apply okpos_le in E; lia]. Qed.
+
+  (* the end of an enclosing node: NoPos (unknown) or not below the bounds *)
+  Definition lowok (x : Z) : Prop := x = nopos \/ lo <= x.
+
+  Lemma end_of_ok nend r c : lowok nend -> okpos (snd r) -> okpos (vend c) -> okpos (end_of nend r c).
+  Proof.
+    intros Hn Hr Hc. unfold end_of.
+    assert (okpos (if (valid nend && (nend <? vend c))%bool then nend else vend c)) as H1.
+    { destruct (valid nend && (nend <? vend c))%bool eqn:E; [|exact Hc].
+      apply andb_true_iff in E as [E1 E2]. apply Z.ltb_lt in E2. unfold valid in E1.
+      apply negb_true_iff, Z.eqb_neq in E1. pose proof (okpos_le _ Hc).
+      destruct Hn as [Hn|Hn]; [contradiction|]. right. lia. }
+    destruct ((fst r <? snd r) && _)%bool; assumption.
+  Qed.
+
+  Lemma okpos_lowok x : okpos x -> lowok x.
+  Proof. intros [H|H]; [left; exact H|right; lia]. Qed.
+
 
   Lemma okpos_vpos v : bounded v -> okpos (vpos v).
   Proof. destruct v; simpl; intros H; try (left; reflexivity). destruct H as [H _]. exact H. Qed.
@@ -73,34 +91,45 @@ Section Bounded.
   Proof. intros [->|Ha] Hb; right; unfold inr in *; lia. Qed.
 
   (* ---- walkStruct ---- *)
-  Lemma starts_ok cs : forall le, bounded_all cs -> okpos le -> Forall okpos (starts_of cs le).
+  Lemma max_ok2 a b : okpos a -> inr b -> okpos (Z.max a b).
+  Proof. apply max_ok. Qed.
+
+  Lemma min_ok a b : okpos a -> inr b -> okpos (Z.min a b).
+  Proof. intros [->|Ha] Hb; unfold inr in *; [left|right]; lia. Qed.
+
+  Lemma min_ok2 a b : okpos a -> okpos b -> okpos (Z.min a b).
+  Proof. intros [->|Ha] [->|Hb]; try (left; lia); right; lia. Qed.
+
+  Section Struct.
+  Variable eo : value -> Z.
+  Hypothesis Heo : forall c, bounded c -> okpos (eo c).
+
+  Lemma starts_ok cs : forall le, bounded_all cs -> okpos le -> Forall okpos (starts_of eo cs le).
   Proof.
     induction cs as [|c cs IH]; intros le Hb Hle; cbn [starts_of]; [constructor|].
     destruct Hb as [Hc Hcs].
     destruct (is_node c).
     - constructor; [apply okpos_vpos; exact Hc|]. apply IH; [exact Hcs|].
       destruct (comments_for_ok c Hc) as [_ Ha].
-      destruct (snd (comments_for c)) as [|a aft] eqn:E; [apply okpos_vend; exact Hc|].
-      apply max_ok; [apply okpos_vend; exact Hc|].
+      destruct (snd (comments_for c)) as [|a aft] eqn:E; [apply Heo; exact Hc|].
+      apply max_ok; [apply Heo; exact Hc|].
       assert (okc (last (a :: aft) (nopos, nopos))) as [_ H2] by (apply last_okc; [discriminate|exact Ha]). exact H2.
     - destruct c; try (constructor; [exact Hle|apply IH; assumption]).
       constructor; [|apply IH; assumption].
       simpl in Hc. destruct (valid p); [exact Hc|left; reflexivity].
   Qed.
 
-  Lemma ends_ok nend cs : forall ss fend, bounded_all cs -> Forall okpos ss -> fend <= hi ->
-    Forall (fun e => e <= hi) (fst (ends_of nend cs ss fend)) /\ snd (ends_of nend cs ss fend) <= hi.
+  Lemma ends_ok cs : forall ss fend, bounded_all cs -> Forall okpos ss -> okpos fend ->
+    Forall okpos (fst (ends_of eo cs ss fend)) /\ okpos (snd (ends_of eo cs ss fend)).
   Proof.
     induction cs as [|c cs IH]; intros ss fend Hb Hs Hf; cbn [ends_of]; [split; [constructor|exact Hf]|].
     destruct ss as [|s ss']; [split; [constructor|exact Hf]|].
     destruct Hb as [Hc Hcs]. inversion Hs as [|? ? Hs1 Hs2]; subst.
     destruct (IH ss' fend Hcs Hs2 Hf) as [H1 H2].
-    destruct (ends_of nend cs ss' fend) as [es np]. cbn [fst snd] in *. split; [|apply okpos_le; exact Hs1].
-    constructor; [|exact H1]. destruct (is_node c); [|exact H2].
-    pose proof (okpos_le _ (okpos_vend c Hc)) as Hv. unfold node_field_end.
-    destruct (valid nend && (nend <? vend c))%bool eqn:E; [|exact Hv].
-    apply andb_true_iff in E as [_ E]. apply Z.ltb_lt in E. lia.
+    destruct (ends_of eo cs ss' fend) as [es np]. cbn [fst snd] in *. split; [|exact Hs1].
+    constructor; [|exact H1]. destruct (is_node c); [apply Heo; exact Hc|exact H2].
   Qed.
+  End Struct.
 
   (* ---- walkSlice ---- *)
   Definition bounded_opt (o : option value) : Prop := match o with Some v => bounded v | None => True end.
@@ -114,15 +143,17 @@ Section Bounded.
     set (e0 := match next with None => snd r | Some nx => _ end).
     assert (okpos p0) as Hp0.
     { unfold p0. destruct prev as [pv|]; [|exact Hp]. simpl in Hpv.
-      destruct (snd (comments_for pv)); [apply okpos_vend; exact Hpv|apply okpos_vpos; exact Hn]. }
-    assert (e0 <= hi) as He0.
+      destruct (snd (comments_for pv)); [apply min_ok2; [apply okpos_vend; exact Hpv|apply okpos_vpos; exact Hn]|apply okpos_vpos; exact Hn]. }
+    assert (okpos e0) as He0.
     { unfold e0. destruct next as [nx|]; [|exact He]. simpl in Hnx.
-      destruct (fst (comments_for nx)); [apply okpos_le, okpos_vpos; exact Hnx|apply okpos_le, okpos_vend; exact Hn]. }
+      destruct (comments_for_ok nx Hnx) as [Hbx _].
+      destruct (fst (comments_for nx)) as [|b0 bs]; [apply okpos_vpos; exact Hnx|].
+      apply min_ok; [apply okpos_vend; exact Hn|]. inversion Hbx as [|? ? [Hb1 _] _]; subst. exact Hb1. }
     clearbody p0 e0.
     destruct (comments_for n) as [bef aft]. cbn [fst snd] in *. split; cbn [fst snd].
     - destruct bef as [|b bef']; [exact Hp0|]. apply max_ok; [exact Hp0|].
       assert (okc (last (b :: bef') (nopos, nopos))) as [_ H2] by (apply last_okc; [discriminate|exact Hb]). exact H2.
-    - destruct aft as [|a aft']; [exact He0|]. lia.
+    - destruct aft as [|a aft']; [exact He0|]. apply min_ok; [exact He0|]. inversion Ha as [|? ? [Ha1 _] _]; subst. exact Ha1.
   Qed.
 
   Lemma elem_regions_inv cs : forall r prev, Inv r -> bounded_opt prev -> bounded_all cs ->
@@ -137,14 +168,14 @@ Section Bounded.
   Variable script : list value -> list value -> list edit.
 
   Definition walk_ok (k : nat) : Prop :=
-    forall nend r from to w, bounded from -> Inv r -> walk script k nend r from to = Some w -> Forall Good (w_log w).
+    forall nend r from to w, bounded from -> Inv r -> lowok nend -> walk script k nend r from to = Some w -> Forall Good (w_log w).
 
   Lemma good_single r : Inv r -> Forall Good [r].
   Proof. intros H. constructor; [apply inv_good; exact H|constructor]. Qed.
 
   Lemma walk_bounded_n : forall k, walk_ok k.
   Proof.
-    induction k as [|k IH]; intros nend r from to w Hb Hr H; [discriminate|].
+    induction k as [|k IH]; intros nend r from to w Hb Hr Hne H; [discriminate|].
     cbn [walk] in H.
     destruct (negb (N.eqb (vtype from) (vtype to))); [inversion H; subst; apply good_single; exact Hr|].
     destruct (N.eqb (vtype from) T_object || N.eqb (vtype from) T_cgroup)%bool; [inversion H; subst; constructor|].
@@ -159,7 +190,8 @@ Section Bounded.
     - (* VRef *)
       destruct to as [tt|pt|tt at_|tt it et|tt ent ys|tt ys]; try (inversion H; subst; apply good_single; exact Hr).
       match type of H with context [walk script k ?ne r ef et] => destruct (walk script k ne r ef et) as [w'|] eqn:E; [|discriminate]; inversion H; subst; cbn [w_log];
-        simpl in Hb; destruct Hb as [_ [_ [_ Hb]]]; exact (IH ne r ef et w' Hb Hr E) end.
+        assert (lowok ne) as Hne' by (destruct (n_isnode (info (VRef tf inf ef))); [apply okpos_lowok, end_of_ok; [exact Hne|apply Hr|apply okpos_vend; exact Hb]|exact Hne]);
+        simpl in Hb; destruct Hb as [_ [_ [_ Hb]]]; exact (IH ne r ef et w' Hb Hr Hne' E) end.
     - (* VSlice *)
       destruct to as [tt|pt|tt at_|tt it et|tt ent ys|tt ys];
         try (destruct enf; inversion H; subst; apply good_single; exact Hr).
@@ -190,7 +222,7 @@ Section Bounded.
               destruct (walk script k nend rg x y) as [w'|] eqn:Ew; [|discriminate].
               destruct (go es xs' ys' regs') as [[[eq' tos'] lg']|] eqn:E; [|discriminate]. inversion Hg; subst.
               destruct Hbx as [Hx Hbx]. inversion Hrg as [|? ? Hrg1 Hrg2]; subst.
-              apply Forall_app. split; [exact (IH nend rg x y w' Hx Hrg1 Ew)|]. eapply IHes; eauto. }
+              apply Forall_app. split; [exact (IH nend rg x y w' Hx Hrg1 Hne Ew)|]. eapply IHes; eauto. }
         destruct (go es xs ys regs) as [[[eq tos] lg]|] eqn:E; [|discriminate]. inversion H; subst. cbn [w_log].
         eapply Hgo; eauto.
       + (* plain slice *)
@@ -203,19 +235,21 @@ Section Bounded.
           - destruct ys as [|y ys']; simpl in Hg; [inversion Hg; subst; constructor|].
             destruct (walk script k nend r x y) as [w'|] eqn:Ew; [|discriminate].
             destruct (go xs ys') as [[[eq' tos'] lg']|] eqn:E; [|discriminate]. inversion Hg; subst.
-            destruct Hbx as [Hx Hbx]. apply Forall_app. split; [exact (IH nend r x y w' Hx Hr Ew)|]. eapply IHxs; eauto. }
+            destruct Hbx as [Hx Hbx]. apply Forall_app. split; [exact (IH nend r x y w' Hx Hr Hne Ew)|]. eapply IHxs; eauto. }
         destruct (go xs ys) as [[[eq tos] lg]|] eqn:E; [|discriminate]. inversion H; subst. cbn [w_log].
         eapply Hgo; eauto.
     - (* VStruct *)
       destruct to as [tt|pt|tt at_|tt it et|tt ent ys|tt ys]; try (inversion H; subst; apply good_single; exact Hr).
       rewrite bounded_struct in Hb. destruct Hr as [Hr1 Hr2].
-      pose proof (starts_ok xs (fst r) Hb Hr1) as Hss.
-      pose proof (ends_ok nend xs (starts_of xs (fst r)) (snd r) Hb Hss Hr2) as [Hes _].
-      revert H Hss Hes. generalize (starts_of xs (fst r)) as ss. intros ss.
-      generalize (fst (ends_of nend xs ss (snd r))) as es. intros es H Hss Hes.
+      assert (forall c0, bounded c0 -> okpos (end_of nend r c0)) as Heo
+        by (intros c0 Hc0; apply end_of_ok; [exact Hne|exact Hr2|apply okpos_vend; exact Hc0]).
+      pose proof (starts_ok (end_of nend r) Heo xs (fst r) Hb Hr1) as Hss.
+      pose proof (ends_ok (end_of nend r) Heo xs (starts_of (end_of nend r) xs (fst r)) (snd r) Hb Hss Hr2) as [Hes _].
+      revert H Hss Hes. generalize (starts_of (end_of nend r) xs (fst r)) as ss. intros ss.
+      generalize (fst (ends_of (end_of nend r) xs ss (snd r))) as es. intros es H Hss Hes.
       match type of H with context [ (fix go (xs ys : list value) (ss es : list Z) {struct xs} := _) xs ys ss es ] =>
         set (go := (fix go (xs ys : list value) (ss es : list Z) {struct xs} : option (bool * list value * list region) := _)) in H end.
-      assert (forall xs ys ss es eq tos lg, bounded_all xs -> Forall okpos ss -> Forall (fun e => e <= hi) es ->
+      assert (forall xs ys ss es eq tos lg, bounded_all xs -> Forall okpos ss -> Forall okpos es ->
                 go xs ys ss es = Some (eq, tos, lg) -> Forall Good lg) as Hgo.
       { clear H Hb Hss Hes xs ys ss es. induction xs as [|x xs IHxs]; intros ys ss es eq tos lg Hbx Hs He Hg.
         - simpl in Hg. inversion Hg; subst. constructor.
@@ -224,15 +258,15 @@ Section Bounded.
           destruct es as [|e es']; [inversion Hg; subst; constructor|].
           destruct (walk script k nend (s, e) x y) as [w'|] eqn:Ew; [|discriminate].
           destruct (go xs ys' ss' es') as [[[eq' tos'] lg']|] eqn:E; [|discriminate]. inversion Hg; subst.
-          destruct Hbx as [Hx Hbx]. inversion Hs; subst. inversion He; subst.
-          apply Forall_app. split; [|eapply IHxs; eauto].
-          apply (IH nend (s, e) x y w' Hx); [split; assumption|exact Ew]. }
+          destruct Hbx as [Hx Hbx]. inversion Hs as [|? ? H1 H2]; subst. inversion He as [|? ? H3 H4]; subst.
+          apply Forall_app. split; [|exact (IHxs ys' ss' es' eq' tos' lg' Hbx H2 H4 E)].
+          apply (IH nend (s, e) x y w' Hx); [split; assumption|exact Hne|exact Ew]. }
       destruct (go xs ys ss es) as [[[eq tos] lg]|] eqn:E; [|discriminate]. inversion H; subst. cbn [w_log].
-      eapply Hgo; eauto.
+      exact (Hgo xs ys ss es eq tos lg Hb Hss Hes E).
   Qed.
 
   Theorem walk_bounded k nend r from to w :
-    bounded from -> Inv r -> walk script k nend r from to = Some w -> Forall Good (w_log w).
+    bounded from -> Inv r -> lowok nend -> walk script k nend r from to = Some w -> Forall Good (w_log w).
   Proof. apply walk_bounded_n. Qed.
 
   (* the comments attached to the walked node itself (its doc and trailing comments, which lie
@@ -244,17 +278,18 @@ Section Bounded.
     end.
 
   Theorem walk_bounded_root : forall k nend r from to w,
-    bounded_root from -> Inv r -> walk script k nend r from to = Some w -> Forall Good (w_log w).
+    bounded_root from -> Inv r -> lowok nend -> walk script k nend r from to = Some w -> Forall Good (w_log w).
   Proof.
-    induction k as [|k IH]; intros nend r from to w Hb Hr H; [discriminate|].
+    induction k as [|k IH]; intros nend r from to w Hb Hr Hne H; [discriminate|].
     destruct from as [tf|pf|tf af|tf inf ef|tf enf xs|tf xs];
-      try (eapply walk_bounded; [exact Hb|exact Hr|exact H]).
+      try (eapply walk_bounded; [exact Hb|exact Hr|exact Hne|exact H]).
     cbn [walk] in H.
     destruct (negb (N.eqb (vtype (VRef tf inf ef)) (vtype to))); [inversion H; subst; apply good_single; exact Hr|].
     destruct (N.eqb (vtype (VRef tf inf ef)) T_object || N.eqb (vtype (VRef tf inf ef)) T_cgroup)%bool; [inversion H; subst; constructor|].
     destruct to as [tt|pt|tt at_|tt it et|tt ent ys|tt ys]; try (inversion H; subst; apply good_single; exact Hr).
     match type of H with context [walk script k ?ne r ef et] => destruct (walk script k ne r ef et) as [w'|] eqn:E; [|discriminate]; inversion H; subst; cbn [w_log];
-      simpl in Hb; destruct Hb as [_ [_ Hb]]; exact (IH ne r ef et w' Hb Hr E) end.
+      assert (lowok ne) as Hne' by (destruct (n_isnode (info (VRef tf inf ef))); [apply okpos_lowok, end_of_ok; [exact Hne|apply Hr|simpl; apply Hb]|exact Hne]);
+      simpl in Hb; destruct Hb as [_ [_ Hb]]; exact (IH ne r ef et w' Hb Hr Hne' E) end.
   Qed.
 End Bounded.
 
@@ -286,28 +321,29 @@ Section Slice.
     fst r = nopos \/ forall q, fst c <= q < snd c -> ~ (fst r <= q < snd r).
 
   (* the element and its region keep clear of the comment *)
-  Definition Excl (x : value) (rg : region) : Prop :=
+  Definition Excl (nend : Z) (x : value) (rg : region) : Prop :=
     let lo := Z.min (fst rg) (vpos x) in
     let hi := Z.max (snd rg) (vend x) in
-    nopos <= lo /\ lo <= hi /\ bounded_root lo hi x /\ okpos lo hi (fst rg) /\ (snd c <= lo \/ hi <= fst c).
+    nopos <= lo /\ lo <= hi /\ bounded_root lo hi x /\ okpos lo hi (fst rg) /\ (snd c <= lo \/ hi <= fst c) /\
+    okpos lo hi (snd rg) /\ lowok lo nend.
 
   Lemma good_not_inside lo hi r : Good lo hi r -> (snd c <= lo \/ hi <= fst c) -> not_inside r.
   Proof.
     intros [G|[G|G]] Hx; [left; exact G|right; intros q Hq; lia|right; intros q Hq; lia].
   Qed.
 
-  Fixpoint posok (es : list edit) (xs : list value) (regs : list region) : Prop :=
+  Fixpoint posok (nend : Z) (es : list edit) (xs : list value) (regs : list region) : Prop :=
     match es with
     | [] => True
-    | Identity :: es' => match xs, regs with _ :: xs', _ :: regs' => posok es' xs' regs' | _, _ => True end
-    | UniqueY :: es' => posok es' xs regs
-    | _ :: es' => match xs, regs with x :: xs', rg :: regs' => Excl x rg /\ posok es' xs' regs' | _, _ => True end
+    | Identity :: es' => match xs, regs with _ :: xs', _ :: regs' => posok nend es' xs' regs' | _, _ => True end
+    | UniqueY :: es' => posok nend es' xs regs
+    | _ :: es' => match xs, regs with x :: xs', rg :: regs' => Excl nend x rg /\ posok nend es' xs' regs' | _, _ => True end
     end.
 
-  Lemma posok_from : forall es xs regs,
+  Lemma posok_from nend : forall es xs regs,
     (forall i x rg e, nth_error xs i = Some x -> nth_error regs i = Some rg ->
-                      nth_error (xedits es) i = Some e -> e <> Identity -> Excl x rg) ->
-    posok es xs regs.
+                      nth_error (xedits es) i = Some e -> e <> Identity -> Excl nend x rg) ->
+    posok nend es xs regs.
   Proof.
     induction es as [|e es IH]; intros xs regs HE; [exact I|].
     destruct e; cbn [posok].
@@ -330,7 +366,7 @@ Section Slice.
   Theorem slice_log_not_inside k nend r t xs t' en ys w :
     walk script (S k) nend r (VSlice t true xs) (VSlice t' en ys) = Some w ->
     N.eqb t t' = true -> N.eqb t T_object = false -> N.eqb t T_cgroup = false ->
-    posok (script xs ys) xs (elem_regions r None xs) ->
+    posok nend (script xs ys) xs (elem_regions r None xs) ->
     Forall not_inside (w_log w).
   Proof.
     intros H Et Eo Ec Hp. cbn [walk vtype] in H. rewrite Et, Eo, Ec in H. cbn [negb orb] in H.
@@ -338,7 +374,7 @@ Section Slice.
     set (es := script xs ys) in *. clearbody es.
     match type of H with context [ (fix go (es : list edit) (xs ys : list value) (regs : list region) {struct es} := _) es xs ys regs ] =>
       set (go := (fix go (es : list edit) (xs ys : list value) (regs : list region) {struct es} : option (bool * list value * list region) := _)) in H end.
-    assert (forall es xs ys regs eq tos lg, posok es xs regs ->
+    assert (forall es xs ys regs eq tos lg, posok nend es xs regs ->
               go es xs ys regs = Some (eq, tos, lg) -> Forall not_inside lg) as Hgo.
     { clear H Hp xs ys regs es. induction es as [|e es IHes]; intros xs ys regs eq tos lg Hp Hg.
       - simpl in Hg. inversion Hg; subst. constructor.
@@ -347,16 +383,16 @@ Section Slice.
           destruct (go es xs' ys' regs') as [[[eq' tos'] lg']|] eqn:E; [|discriminate]. inversion Hg; subst. eapply IHes; eauto.
         + destruct xs as [|x xs']; [discriminate|]. destruct regs as [|rg regs']; [discriminate|].
           destruct (go es xs' ys regs') as [[[eq' tos'] lg']|] eqn:E; [|discriminate]. inversion Hg; subst.
-          destruct Hp as [[Hlo [Hlh [Hb [Hok Hx]]]] Hp]. constructor; [|eapply IHes; eauto].
-          eapply good_not_inside; [|exact Hx]. apply inv_good. split; [exact Hok|]. cbn [snd]. lia.
+          destruct Hp as [[Hlo [Hlh [Hb [Hok [Hx [Hok2 Hlow]]]]]] Hp]. constructor; [|eapply IHes; eauto].
+          eapply good_not_inside; [|exact Hx]. unfold Good. destruct Hok as [E0|E0]; [left; exact E0|]. right. right. destruct Hok2 as [E2|E2]; lia.
         + destruct ys as [|y ys']; [discriminate|].
           destruct (go es xs ys' regs) as [[[eq' tos'] lg']|] eqn:E; [|discriminate]. inversion Hg; subst. eapply IHes; eauto.
         + destruct xs as [|x xs']; [discriminate|]. destruct ys as [|y ys']; [discriminate|]. destruct regs as [|rg regs']; [discriminate|].
           destruct (walk script k nend rg x y) as [w'|] eqn:Ew; [|discriminate].
           destruct (go es xs' ys' regs') as [[[eq' tos'] lg']|] eqn:E; [|discriminate]. inversion Hg; subst.
-          destruct Hp as [[Hlo [Hlh [Hb [Hok Hx]]]] Hp]. apply Forall_app. split; [|eapply IHes; eauto].
+          destruct Hp as [[Hlo [Hlh [Hb [Hok [Hx [Hok2 Hlow]]]]]] Hp]. apply Forall_app. split; [|eapply IHes; eauto].
           assert (Forall (Good (Z.min (fst rg) (vpos x)) (Z.max (snd rg) (vend x))) (w_log w')) as HG.
-          { eapply walk_bounded_root; [exact Hlo|exact Hlh|exact Hb| |exact Ew]. split; [exact Hok|cbn [snd]; lia]. }
+          { eapply walk_bounded_root; [exact Hlo|exact Hlh|exact Hb| |exact Hlow|exact Ew]. split; [exact Hok|exact Hok2]. }
           eapply Forall_impl; [|exact HG]. intros a Ha. eapply good_not_inside; [exact Ha|exact Hx]. }
     destruct (go es xs ys regs) as [[[eq tos] lg]|] eqn:E; [|discriminate]. inversion H; subst. cbn [w_log].
     eapply Hgo; eauto.
@@ -437,13 +473,13 @@ Qed.
 Definition p0_of (r : region) (prev : option value) (n : value) : Z :=
   match prev with
   | None => fst r
-  | Some pv => match snd (comments_for pv) with [] => vend pv | _ => vpos n end
+  | Some pv => match snd (comments_for pv) with [] => Z.min (vend pv) (vpos n) | _ => vpos n end
   end.
 
 Definition e0_of (r : region) (n : value) (next : option value) : Z :=
   match next with
   | None => snd r
-  | Some nx => match fst (comments_for nx) with [] => vpos nx | _ => vend n end
+  | Some nx => match fst (comments_for nx) with [] => vpos nx | b :: _ => Z.min (vend n) (fst b) end
   end.
 
 Lemma last_app_ne {A} (a b : list A) d : b <> [] -> last (a ++ b) d = last b d.
@@ -500,16 +536,24 @@ Section Identity.
     (forall i x e, nth_error xs i = Some x -> nth_error (xedits (script xs ys)) i = Some e -> e <> Identity ->
                    bounded_root (vpos x) (vend x) x) ->
     nopos <= fst r -> (forall x0, nth_error xs 0 = Some x0 -> fst r <= vpos x0) ->
+    (* the enclosing node, when its end is known, does not end before an element starts; the region of
+       an element that changed does not end before both its own start and the element's *)
+    (nend = nopos \/ forall x, In x xs -> vpos x <= nend) ->
+    (forall i x e rg, nth_error xs i = Some x -> nth_error (xedits (script xs ys)) i = Some e -> e <> Identity ->
+                      nth_error (elem_regions r None xs) i = Some rg -> snd rg = nopos \/ Z.min (fst rg) (vpos x) <= snd rg) ->
     (* element j is paired as identical, and the comment belongs to it *)
     nth_error xs j = Some xj -> nth_error (xedits (script xs ys)) j = Some Identity ->
     fst c < snd c -> attached xs j xj c ->
     Forall (not_inside c) (w_log w).
   Proof.
-    intros H Et Eo Ec Hn Ho Hb Hr0 Hr1 Hj HI Hc Hat.
+    intros H Et Eo Ec Hn Ho Hb Hr0 Hr1 Hnend Hregs Hj HI Hc Hat.
     eapply slice_log_not_inside; eauto.
-    apply (posok_from c (script xs ys) xs (elem_regions r None xs)).
+    apply (posok_from c nend (script xs ys) xs (elem_regions r None xs)).
     intros i x rg e Hx Hrg He Hnid. assert (i <> j) as Hne by (intros ->; rewrite HI in He; inversion He; subst; apply Hnid; reflexivity).
-    assert (rg = elem_region r (prev_of None xs i) x (nth_error xs (S i))) as -> by (rewrite (nth_elem_regions r xs None i x Hx) in Hrg; congruence). clear Hrg.
+    pose proof (Hregs i x e rg Hx He Hnid Hrg) as Hrg2.
+    assert (nend = nopos \/ vpos x <= nend) as Hnendx by (destruct Hnend as [E0|E0]; [left; exact E0|right; apply E0; eapply nth_error_In; exact Hx]).
+    clear Hregs Hnend. revert Hrg2.
+    assert (rg = elem_region r (prev_of None xs i) x (nth_error xs (S i))) as -> by (rewrite (nth_elem_regions r xs None i x Hx) in Hrg; congruence). clear Hrg. intros Hrg2.
     set (prev := prev_of None xs i) in *. set (next := nth_error xs (S i)) in *.
     pose proof (nth_node_ok _ _ _ Hn Hx) as [Nx1 Nx2].
     pose proof (nth_node_ok _ _ _ Hn Hj) as [Nj1 Nj2].
@@ -547,7 +591,7 @@ Section Identity.
           - pose proof (ord_lt xs i j x xj Ho Hn Hlt Hx Hj). lia. }
         assert (e0_of r x next <= fst c) as V2.
         { rewrite Enx. cbn [e0_of]. unfold next in Enx.
-          destruct (fst (comments_for nx)) as [|b0 bs] eqn:Eb; [|exact V1].
+          destruct (fst (comments_for nx)) as [|b0 bs] eqn:Eb; [|lia].
           destruct (Nat.eq_dec (S i) j) as [Esj|Esj].
           - rewrite Esj, Hj in Enx. inversion Enx; subst nx.
             destruct Hat as [[Hin _]|[[_ [Ha _]]|[Hi1 _]]]; [rewrite Eb in Hin; contradiction|lia|lia].
@@ -588,6 +632,8 @@ Section Identity.
                 apply nth_error_Some in H0. lia.
             + pose proof (ord_lt xs j i' xj pv Ho Hn ltac:(lia) Hj Epv). lia. }
         lia.
+    - destruct Hrg2 as [E0|E0]; [left; exact E0|right; lia].
+    - unfold lowok. destruct Hnendx as [E0|E0]; [left; exact E0|right; lia].
   Qed.
 End Identity.
 
@@ -693,12 +739,14 @@ Qed.
 Theorem identity_element_keeps_its_comments_b script k nend r t xs t' en ys w j xj c :
   walk script (S k) nend r (VSlice t true xs) (VSlice t' en ys) = Some w ->
   N.eqb t t' = true -> N.eqb t T_object = false -> N.eqb t T_cgroup = false ->
-  list_okb r xs (xedits (script xs ys)) = true ->
+  list_okb nend r xs (xedits (script xs ys)) = true ->
   nth_error xs j = Some xj -> nth_error (xedits (script xs ys)) j = Some Identity ->
   fst c < snd c -> attachedb xs j xj c = true ->
   Forall (not_inside c) (w_log w).
 Proof.
-  intros H Et Eo Ec Hl Hj HI Hc Ha. unfold list_okb in Hl. repeat (apply andb_true_iff in Hl as [Hl ?]).
+  intros H Et Eo Ec Hl Hj HI Hc Ha. unfold list_okb in Hl.
+  apply andb_true_iff in Hl as [Hl Hregs]. apply andb_true_iff in Hl as [Hl Hnend].
+  repeat (apply andb_true_iff in Hl as [Hl ?]).
   eapply identity_element_keeps_its_comments; eauto.
   - apply Forall_forall. intros x Hx. apply node_okb_sound. rewrite forallb_forall in Hl. auto.
   - apply orderedb_sound; assumption.
@@ -709,5 +757,15 @@ Proof.
   - match goal with H : (nopos <=? fst r) = true |- _ => apply Z.leb_le in H; exact H end.
   - intros x0 E. destruct xs as [|a xs']; [discriminate|]. simpl in E. inversion E; subst.
     match goal with H : (fst r <=? vpos x0) = true |- _ => apply Z.leb_le in H; exact H end.
+  - apply orb_true_iff in Hnend as [E|E]; [left; apply Z.eqb_eq; exact E|right].
+    intros x Hx. rewrite forallb_forall in E. apply Z.leb_le, E, Hx.
+  - intros i x e rg Hx He Hnid Hrg. rewrite forallb_forall in Hregs.
+    specialize (Hregs (x, e, rg) (nth_error_In _ _ (nth_error_combine _ _ _ _ _ (nth_error_combine _ _ _ _ _ Hx He) Hrg))).
+    cbv beta iota in Hregs.
+    destruct e; try (exfalso; apply Hnid; reflexivity); cbn [is_identity orb] in Hregs;
+      (apply orb_true_iff in Hregs as [E|E]; [left; apply Z.eqb_eq; exact E|right; apply Z.leb_le; exact E]).
   - apply attachedb_sound; exact Ha.
 Qed.
+
+Lemma list_okb_parts nend r xs es : list_okb nend r xs es = forallb (fun b => b) (list_ok_parts nend r xs es).
+Proof. unfold list_okb, list_ok_parts. cbn [forallb]. rewrite andb_true_r, <- !andb_assoc. reflexivity. Qed.
